@@ -2,7 +2,7 @@
 From RW Require Import Base.Bytes Base.BytesFacts Fmt.Codec Fmt.CodecFacts Fmt.Frame Wal.Model Wal.Spec Wal.Hist Wal.FaultHist
   Wal.CrashInv Wal.CrashFacts0 Wal.CrashFacts1 Wal.CrashFacts2 Wal.CrashFacts3 Wal.CrashFacts4 Wal.CrashFacts5
   Wal.CrashFacts6 Wal.CrashGlue Wal.CrashCalls1 Wal.CrashCalls2 Wal.FaultSim Wal.FaultSim2 Wal.FaultInv Wal.FaultFacts2
-  Wal.FaultFacts3 Wal.FaultNames Wal.FaultStore Wal.FaultDelete Wal.FaultSteps Wal.FaultSeal Wal.FaultThm Gen.Constants.
+  Wal.FaultFacts3 Wal.FaultNames Wal.FaultStore Wal.FaultDelete Wal.FaultSteps Wal.FaultThm Gen.Constants.
 From Coq Require Import ZifyN ZifyNat ZifyBool.
 Open Scope N_scope.
 
